@@ -264,6 +264,63 @@ def parse_curve(s):
     return out
 
 
+RENAMES = [["x0", "x1", "x2"], ["xc", "yc", "zc"], ["x_um", "y_um", "z_um"], ["col", "row", "plane"],
+           ["X", "Y", "Z"], ["pos_a", "pos_b", "pos_c"], [0, 1, 2]]
+
+
+def _check_renamed(inp, res, nd, names, pv):
+    """The statement is about "2D/3D position columns", whatever they are called: the same table with
+    its position columns RENAMED (compute_drift(pos_columns=new names), subtract_drift with that
+    drift) must give the same numbers as the run above, which the oracle has already judged."""
+    import random
+    import numpy as np
+    from trackpy.motion import compute_drift, subtract_drift
+    rng = random.Random(repr(inp["rows"][:4]) + str(nd))
+    if rng.random() > 0.5:
+        return
+    new = rng.choice(RENAMES)[:nd]
+    fwd = dict(zip(names, new))
+    back = dict(zip(new, names))
+    t = build_frame(inp)
+    try:
+        d1 = compute_drift(t.copy(deep=True), pos_columns=names)
+        s1 = subtract_drift(t.copy(deep=True), d1)
+    except Exception:
+        return
+    try:
+        t2 = t.rename(columns=fwd)
+        d2 = compute_drift(t2.copy(deep=True), pos_columns=new)
+        s2 = subtract_drift(t2.copy(deep=True), d2)
+    except Exception as e:
+        pv("renamed-columns-raise", "position columns called %s: %s: %s" % (new, type(e).__name__,
+                                                                          str(e)[:200]))
+        return
+    res.stat("renamed_columns_compared")
+    d2b, s2b = d2.rename(columns=back), s2.rename(columns=back)
+
+    def same(a, b):
+        if list(a.columns) != list(b.columns) or len(a) != len(b) \
+                or list(a.index.values) != list(b.index.values):
+            return False
+        for c in a.columns:
+            va, vb = a[c].values, b[c].values
+            try:
+                if not np.array_equal(va.astype(float), vb.astype(float), equal_nan=True):
+                    return False
+            except (TypeError, ValueError):
+                if list(va) != list(vb):
+                    return False
+        return True
+    if not same(d1, d2b):
+        pv("renamed-columns-drift", "compute_drift with position columns called %s differs from the "
+           "same table with columns %s" % (new, names), impl=d2b.head(8).to_dict("list"),
+           model=d1.head(8).to_dict("list"))
+    elif not same(s1, s2b):
+        pv("renamed-columns-subtract", "subtract_drift with position columns called %s (drift from "
+           "compute_drift(pos_columns=...)) differs from the same table with columns %s"
+           % (new, names), impl=s2b.head(8).to_dict("list"), model=s1.head(8).to_dict("list"))
+
+
 def run_case(ctx, inp):
     import pandas as pd
     from trackpy.motion import compute_drift, subtract_drift
@@ -498,6 +555,8 @@ def run_case(ctx, inp):
                 break
         else:
             res.stat("rigid_base_not_driftfree")
+    if not res.viol:
+        _check_renamed(inp, res, nd, names, pv)
     if res.nontrivial and not res.viol:
         res.sample = dict(input=dict(rows=len(rows), ndim=nd, layout=lay, mode=inp.get("mode"),
                                      xdrift=xd), measured_frames=measured, hypothesis=hyp,
